@@ -134,7 +134,7 @@ class Program:
     # -- C13 ------------------------------------------------------------------
     def used(self, nd):
         if nd.kind == "gate":
-            if nd.name in (self.p_gate, self.m_gate):
+            if nd.name in (self.p_gate, self.m_gate) or nd.name in gateset_sig.BUSY:
                 return set(range(self.n))
             if nd.name.startswith("I_"):
                 return set()
